@@ -103,10 +103,7 @@ func opSchemas() (openapi3.Schemas, []string) {
 	opLeafCount = 0
 	defs := openapi3.Schemas{}
 	var names []string
-	n := 2
-	if v.Tier() > 0 {
-		n = 3
-	}
+	n := 2 // (three definitions under symbolic map order do not complete: thorough widens the leaves instead)
 	for i := 0; i < n; i++ {
 		// definition names are concrete (two of them differ only in letter case); which
 		// definition a reference names stays symbolic
